@@ -227,6 +227,133 @@ struct Failure<C> {
     case: C,
     msg: String,
     origin: String,
+    /// tape the case was generated from (generated cases only)
+    tape: Option<Vec<u32>>,
+    /// what ran on the same thread before the case, when the failure needs it (see `confirm`)
+    history: Vec<HistItem>,
+    /// (shard, index): the failure reproduces only by re-running the shard up to this case
+    shard_prefix: Option<(usize, usize)>,
+}
+
+impl<C> Failure<C> {
+    fn plain(case: C, msg: String, origin: String) -> Self {
+        Failure { case, msg, origin, tape: None, history: vec![], shard_prefix: None }
+    }
+}
+
+/// One thing that ran on a shard's thread before a case: an earlier generated case (its tape) or an interlude.
+#[derive(Clone, Debug)]
+pub enum HistItem {
+    Tape(Vec<u32>),
+    Poison(u32),
+}
+
+fn hist_to_json(h: &[HistItem]) -> Value {
+    Value::Array(
+        h.iter()
+            .map(|i| match i {
+                HistItem::Tape(t) => json!({ "tape": t }),
+                HistItem::Poison(k) => json!({ "interlude": k, "what": crate::poison::describe(*k) }),
+            })
+            .collect(),
+    )
+}
+
+fn hist_from_json(v: &Value) -> Option<Vec<HistItem>> {
+    let mut out = vec![];
+    for i in v.as_array()? {
+        if let Some(t) = i.get("tape") {
+            out.push(HistItem::Tape(serde_json::from_value(t.clone()).ok()?));
+        } else {
+            out.push(HistItem::Poison(i.get("interlude")?.as_u64()? as u32));
+        }
+    }
+    Some(out)
+}
+
+/// Pure function of (seed, shard, index): the interlude (see `poison`) that runs on the shard's thread before that case.
+fn interlude_for(seed: u64, shard: usize, i: usize) -> Option<u32> {
+    let mut x = seed ^ 0xD1B54A32D192ED03u64.wrapping_mul(shard as u64 + 1) ^ (i as u64 + 1).wrapping_mul(0x9E3779B97F4A7C15);
+    x = (x ^ (x >> 30)).wrapping_mul(0xbf58476d1ce4e5b9);
+    x = (x ^ (x >> 27)).wrapping_mul(0x94d049bb133111eb);
+    x ^= x >> 31;
+    if x % 12 == 0 {
+        Some(((x >> 16) % crate::poison::KINDS as u64) as u32)
+    } else {
+        None
+    }
+}
+
+/// Run `hist` and then the case decoded from `tape` on one fresh big-stack thread; the final case and its failure
+/// message when it fails there.
+fn run_after_history<P: Prop + 'static>(p: &Arc<P>, hist: &[HistItem], tape: &[u32]) -> (P::Case, Option<String>) {
+    let pp = p.clone();
+    let hist = hist.to_vec();
+    let tape = tape.to_vec();
+    run_on_big_stack(move || {
+        for h in &hist {
+            match h {
+                HistItem::Poison(k) => {
+                    crate::poison::run(*k);
+                }
+                HistItem::Tape(w) => {
+                    let mut t = Tape::new(w);
+                    let c = pp.generate(&mut t);
+                    let _ = pp.check(&c);
+                }
+            }
+        }
+        let mut t = Tape::new(&tape);
+        let case = pp.generate(&mut t);
+        let v = match pp.check(&case).verdict {
+            Verdict::Fail(m) => Some(m),
+            _ => None,
+        };
+        (case, v)
+    })
+    .join()
+    .expect("history thread")
+}
+
+/// A generated case failed on a shard's thread.  Decide what the failure depends on:
+/// the case alone (fresh thread) -> ordinary failure, shrunk as usual by the caller;
+/// the case after (part of) the recent history of the thread -> the smallest such history found goes into the replay;
+/// neither -> the replay re-runs the shard up to the case (a shard is a pure function of seed and shard number).
+enum Confirmed {
+    Alone,
+    AfterHistory(Vec<HistItem>),
+    ShardPrefix,
+}
+
+fn confirm<P: Prop + 'static>(p: &Arc<P>, recent: &[HistItem], tape: &[u32]) -> Confirmed {
+    if run_after_history(p, &[], tape).1.is_some() {
+        return Confirmed::Alone;
+    }
+    if recent.is_empty() || run_after_history(p, recent, tape).1.is_none() {
+        return Confirmed::ShardPrefix;
+    }
+    // shortest suffix (doubling), then drop single items greedily
+    let mut k = 1;
+    let mut h: Vec<HistItem> = recent.to_vec();
+    while k < recent.len() {
+        let cand = &recent[recent.len() - k..];
+        if run_after_history(p, cand, tape).1.is_some() {
+            h = cand.to_vec();
+            break;
+        }
+        k *= 2;
+    }
+    let mut i = 0;
+    while i < h.len() && h.len() > 1 {
+        let mut cand = h.clone();
+        cand.remove(i);
+        if run_after_history(p, &cand, tape).1.is_some() {
+            h = cand;
+        } else {
+            i += 1;
+        }
+    }
+    Confirmed::AfterHistory(h)
 }
 
 fn shard_seed(seed: u64, shard: usize) -> [u8; 32] {
@@ -261,6 +388,17 @@ fn save_replay<P: Prop>(p: &P, cfg: &Config, f: &Failure<P::Case>) -> PathBuf {
         "sample": p.sample(&f.case),
         "case": serde_json::to_value(&f.case).unwrap_or(Value::Null),
     });
+    let mut body = body;
+    if !f.history.is_empty() || f.shard_prefix.is_some() {
+        // the failure needs what ran before it on the same thread: the replay re-creates that
+        body["generated_from"] = json!({ "tape": f.tape });
+        if !f.history.is_empty() {
+            body["history"] = hist_to_json(&f.history);
+        }
+        if let Some((shard, index)) = f.shard_prefix {
+            body["shard_prefix"] = json!({ "shard": shard, "index": index, "seed": cfg.seed, "tier": cfg.tier.name() });
+        }
+    }
     let text = serde_json::to_string_pretty(&body).unwrap();
     let path = dir.join(format!("{:016x}.json", crate::run::fnv(text.as_bytes())));
     std::fs::write(&path, text).expect("write replay");
@@ -308,24 +446,17 @@ fn load_known(prop: &str) -> Vec<Known> {
     out
 }
 
-/// proptest shrinking on the tape, re-decoding and re-checking each candidate
-fn shrink<P: Prop>(
-    p: &P,
+/// proptest shrinking on the tape: `test` re-decodes and re-checks a candidate (on this thread, or after a history on
+/// a fresh one) and returns the case and message when it still fails
+fn shrink<C>(
     tree: &mut impl ValueTree<Value = Vec<u32>>,
-    first: (P::Case, String),
+    first: (C, String, Vec<u32>),
     budget: usize,
-) -> (P::Case, String) {
+    mut test: impl FnMut(&Vec<u32>) -> Option<(C, String)>,
+) -> (C, String, Vec<u32>) {
     let mut best = first;
     let mut steps = 0usize;
     let deadline = Instant::now() + Duration::from_secs(120);
-    let mut test = |t: &Vec<u32>| -> Option<(P::Case, String)> {
-        let mut tape = Tape::new(t);
-        let case = p.generate(&mut tape);
-        match p.check(&case).verdict {
-            Verdict::Fail(m) => Some((case, m)),
-            _ => None,
-        }
-    };
     if !tree.simplify() {
         return best;
     }
@@ -335,8 +466,8 @@ fn shrink<P: Prop>(
             break;
         }
         let cur = tree.current();
-        if let Some(f) = test(&cur) {
-            best = f;
+        if let Some((c, m)) = test(&cur) {
+            best = (c, m, cur);
             if !tree.simplify() {
                 break;
             }
@@ -345,6 +476,175 @@ fn shrink<P: Prop>(
         }
     }
     best
+}
+
+/// What a shard carries from one thread to the next (a shard moves to a fresh thread after every unwind).
+struct ShardState<C> {
+    agg: Agg,
+    fail: Option<Failure<C>>,
+    runner: TestRunner,
+    /// next case index
+    i: usize,
+    done: bool,
+    interludes: u64,
+    migrations: u64,
+    /// replay of a shard prefix: the verdict of the last case
+    last: Option<(C, Option<String>)>,
+}
+
+struct ShardEnv {
+    seed: u64,
+    t: usize,
+    tape_len: usize,
+    /// run cases [0, upto)
+    upto: usize,
+    base: usize,
+    dump: usize,
+    stop: Arc<AtomicBool>,
+    hb: Arc<Vec<AtomicU64>>,
+    cur: Arc<Vec<Mutex<Option<Value>>>>,
+    crashlog: Arc<Option<CrashLog>>,
+    digest_in: Option<Arc<Vec<u64>>>,
+    t0: Instant,
+    /// replay mode: no shrinking, no confirmation; remember the verdict of the last case
+    replaying: bool,
+}
+
+const RECENT: usize = 48;
+
+/// Run cases of one shard on the current (fresh, big-stack) thread until the shard is finished, a case fails, or
+/// something unwound on this thread (then the caller continues the shard on a new thread).
+fn shard_segment<P: Prop + 'static>(pp: &Arc<P>, env: &ShardEnv, mut st: ShardState<P::Case>) -> ShardState<P::Case> {
+    let t = env.t;
+    let strat = pvec(any::<u32>(), 0..=env.tape_len);
+    let mut recent: std::collections::VecDeque<HistItem> = std::collections::VecDeque::new();
+    let unwinds_at_start = crate::run::unwinds();
+    while st.i < env.upto {
+        if env.stop.load(Ordering::Relaxed) {
+            st.done = true;
+            break;
+        }
+        let i = st.i;
+        st.i += 1;
+        let mut tree = strat.new_tree(&mut st.runner).expect("tape tree");
+        let tape_v = tree.current();
+        // the watchdog must be able to name the very case that hangs (in the generator or in the check): its tape is cheap to keep
+        env.hb[t].store(env.t0.elapsed().as_millis() as u64 + 1, Ordering::Relaxed);
+        *env.cur[t].lock().unwrap() = Some(json!({ "tape": tape_v }));
+        if let Some(kind) = interlude_for(env.seed, t, i) {
+            crate::poison::run(kind);
+            st.interludes += 1;
+            if recent.len() == RECENT {
+                recent.pop_front();
+            }
+            recent.push_back(HistItem::Poison(kind));
+        }
+        if let Some(cl) = &*env.crashlog {
+            cl.record(t, 1, &tape_v);
+        }
+        let mut tape = Tape::new(&tape_v);
+        let case = pp.generate(&mut tape);
+        let mut o = pp.check(&case);
+        if t == 0 && i < env.dump {
+            println!("--- case {}: {:?} labels={:?} nt={}\n{}", i, o.verdict, o.labels, o.nontrivial, serde_json::to_string_pretty(&pp.sample(&case)).unwrap());
+        }
+        if let Some(d) = &env.digest_in {
+            if !o.is_fail() {
+                let theirs = d.get(env.base + i).copied();
+                if theirs != Some(o.digest) {
+                    o.verdict = Verdict::Fail(format!("build profiles disagree on this case: other profile digest {:?}, this profile {}", theirs, o.digest));
+                }
+            }
+        }
+        if env.replaying {
+            let v = match &o.verdict {
+                Verdict::Fail(m) => Some(m.clone()),
+                _ => None,
+            };
+            st.last = Some((case, v));
+        } else {
+            st.agg.add(pp.key(&case), &o);
+            st.agg.generated += 1;
+            if o.nontrivial && !matches!(o.verdict, Verdict::Discard(_)) && st.agg.samples.len() < 3 && (i % 7 == 3 || env.upto < 50) {
+                st.agg.samples.push(pp.sample(&case));
+            }
+            if let Verdict::Fail(m) = o.verdict {
+                env.stop.store(true, Ordering::Relaxed);
+                st.done = true;
+                let origin = format!("generated case shard {} #{}", t, i);
+                if m.starts_with("build profiles disagree") {
+                    st.fail = Some(Failure { case, msg: m, origin, tape: Some(tape_v), history: vec![], shard_prefix: None });
+                    break;
+                }
+                let recent_v: Vec<HistItem> = recent.iter().cloned().collect();
+                st.fail = Some(match confirm(pp, &recent_v, &tape_v) {
+                    Confirmed::Alone => {
+                        let (case, msg, tape) = shrink(&mut tree, (case, m, tape_v), 4000, |t: &Vec<u32>| {
+                            let mut tape = Tape::new(t);
+                            let case = pp.generate(&mut tape);
+                            match pp.check(&case).verdict {
+                                Verdict::Fail(m) => Some((case, m)),
+                                _ => None,
+                            }
+                        });
+                        Failure { case, msg, origin, tape: Some(tape), history: vec![], shard_prefix: None }
+                    }
+                    Confirmed::AfterHistory(h) => {
+                        let (case, msg, tape) = shrink(&mut tree, (case, m, tape_v), 300, |t: &Vec<u32>| {
+                            let (c, v) = run_after_history(pp, &h, t);
+                            v.map(|m| (c, m))
+                        });
+                        let msg = format!(
+                            "{}\n--- note: this case passes when it is the first thing run on a thread; it fails after the {} earlier step(s) recorded in the replay ran on the same thread (something they left behind changes its result)",
+                            msg,
+                            h.len()
+                        );
+                        Failure { case, msg, origin, tape: Some(tape), history: h, shard_prefix: None }
+                    }
+                    Confirmed::ShardPrefix => {
+                        let msg = format!(
+                            "{}\n--- note: this case passes when it is the first thing run on a thread, and after the last {} steps of its shard; it fails after the whole sequence of cases that ran before it on the same thread (the replay re-runs shard {} up to case #{})",
+                            m, recent_v.len(), t, i
+                        );
+                        Failure { case, msg, origin, tape: Some(tape_v), history: vec![], shard_prefix: Some((t, i)) }
+                    }
+                });
+                break;
+            }
+        }
+        if crate::run::unwinds() != unwinds_at_start {
+            // something unwound through rrss on this thread (fuel hook or a panic already judged): whatever that left
+            // behind is not rrss's fault, so the shard goes on from a clean thread
+            st.migrations += 1;
+            break;
+        }
+        if recent.len() == RECENT {
+            recent.pop_front();
+        }
+        recent.push_back(HistItem::Tape(tape_v));
+    }
+    if st.i >= env.upto {
+        st.done = true;
+    }
+    env.hb[t].store(0, Ordering::Relaxed);
+    if let Some(cl) = &*env.crashlog {
+        cl.record(t, 0, &[]);
+    }
+    st
+}
+
+/// Run one shard to its end, on as many successive big-stack threads as it takes.
+fn run_shard<P: Prop + 'static>(pp: Arc<P>, env: ShardEnv) -> ShardState<P::Case> {
+    let rng = TestRng::from_seed(RngAlgorithm::ChaCha, &shard_seed(env.seed, env.t));
+    let runner = TestRunner::new_with_rng(PtConfig { failure_persistence: None, ..PtConfig::default() }, rng);
+    let mut st: ShardState<P::Case> = ShardState { agg: Agg::default(), fail: None, runner, i: 0, done: false, interludes: 0, migrations: 0, last: None };
+    let env = Arc::new(env);
+    while !st.done {
+        let pp = pp.clone();
+        let env = env.clone();
+        st = run_on_big_stack(move || shard_segment(&pp, &env, st)).join().expect("shard");
+    }
+    st
 }
 
 pub fn run<P: Prop + 'static>(p: Arc<P>, cfg: Config) -> i32 {
@@ -365,6 +665,59 @@ pub fn run<P: Prop + 'static>(p: Arc<P>, cfg: Config) -> i32 {
             let idx = g.get("fixed_case_index")?.as_u64()? as usize;
             p.fixed_cases(cfg.tier).0.into_iter().nth(idx)
         });
+        let rv: Value = std::fs::read_to_string(path).ok().and_then(|t| serde_json::from_str::<Value>(&t).ok()).unwrap_or(Value::Null);
+        let tape_of = |v: &Value| -> Option<Vec<u32>> { serde_json::from_value(v.get("generated_from")?.get("tape")?.clone()).ok() };
+        if let Some(sp) = rv.get("shard_prefix") {
+            // the failure depends on everything its shard ran before it: re-run the shard up to the case
+            let (shard, index) = (sp["shard"].as_u64().unwrap_or(0) as usize, sp["index"].as_u64().unwrap_or(0) as usize);
+            let seed = sp["seed"].as_u64().unwrap_or(cfg.seed);
+            let tier = if sp["tier"].as_str() == Some("thorough") { Tier::Thorough } else { Tier::Quick };
+            THOROUGH.store(tier == Tier::Thorough, Ordering::Relaxed);
+            let env = ShardEnv {
+                seed,
+                t: shard,
+                tape_len: p.tape_len(tier),
+                upto: index + 1,
+                base: 0,
+                dump: 0,
+                stop: Arc::new(AtomicBool::new(false)),
+                hb: Arc::new((0..=shard).map(|_| AtomicU64::new(0)).collect()),
+                cur: Arc::new((0..=shard).map(|_| Mutex::new(None)).collect()),
+                crashlog: Arc::new(None),
+                digest_in: None,
+                t0: Instant::now(),
+                replaying: true,
+            };
+            let pp = p.clone();
+            let st = std::thread::spawn(move || run_shard(pp, env)).join().expect("replay shard");
+            let Some((case, v)) = st.last else {
+                eprintln!("cannot replay: shard prefix is empty");
+                return 2;
+            };
+            println!("replay {} (shard {} cases 0..={}): {}", path.display(), shard, index, if v.is_some() { "Fail" } else { "Pass" });
+            println!("sample: {}", serde_json::to_string_pretty(&p.sample(&case)).unwrap());
+            return match v {
+                Some(m) => {
+                    println!("failure: {}", m);
+                    println!("VIOLATION property={} replay={}", id, path.display());
+                    1
+                }
+                None => 0,
+            };
+        }
+        if let (Some(h), Some(tape)) = (rv.get("history").and_then(hist_from_json), tape_of(&rv)) {
+            let (case, v) = run_after_history(&p, &h, &tape);
+            println!("replay {} (after {} earlier steps on the same thread): {}", path.display(), h.len(), if v.is_some() { "Fail" } else { "Pass" });
+            println!("sample: {}", serde_json::to_string_pretty(&p.sample(&case)).unwrap());
+            return match v {
+                Some(m) => {
+                    println!("failure: {}", m);
+                    println!("VIOLATION property={} replay={}", id, path.display());
+                    1
+                }
+                None => 0,
+            };
+        }
         let case = match from_tape.map(Ok).unwrap_or_else(|| load_case::<P>(path)) {
             Ok(c) => c,
             Err(e) => {
@@ -422,11 +775,11 @@ pub fn run<P: Prop + 'static>(p: Arc<P>, cfg: Config) -> i32 {
                             let one_line: String = m.lines().next().unwrap_or("").chars().take(300).collect();
                             lines.push(format!("KNOWN-FINDING: property={} {} ({}): {}", pp.id(), k.id, k.what, one_line));
                         } else {
-                            fails.push(Failure { case, msg: m.clone(), origin: format!("known-finding witness {} (different signature)", k.id) });
+                            fails.push(Failure::plain(case, m.clone(), format!("known-finding witness {} (different signature)", k.id)));
                         }
                     }
                     (Verdict::Fail(m), _) => {
-                        fails.push(Failure { case, msg: m.clone(), origin: format!("regression of fixed finding {}", k.id) });
+                        fails.push(Failure::plain(case, m.clone(), format!("regression of fixed finding {}", k.id)));
                     }
                     (_, "known") => lines.push(format!("note: known finding {} no longer reproduces", k.id)),
                     _ => {}
@@ -439,7 +792,7 @@ pub fn run<P: Prop + 'static>(p: Arc<P>, cfg: Config) -> i32 {
                         agg.add(pp.key(&case), &o);
                         agg.fixed += 1;
                         if let Verdict::Fail(m) = o.verdict {
-                            fails.push(Failure { case, msg: m, origin: format!("regression input {}", path.display()) });
+                            fails.push(Failure::plain(case, m, format!("regression input {}", path.display())));
                         }
                     }
                     Err(e) => {
@@ -536,7 +889,7 @@ pub fn run<P: Prop + 'static>(p: Arc<P>, cfg: Config) -> i32 {
                         agg.samples.push(pp.sample(case));
                     }
                     if let Verdict::Fail(m) = o.verdict {
-                        fail = Some(Failure { case: case.clone(), msg: m, origin: format!("fixed case #{}", lo + i) });
+                        fail = Some(Failure::plain(case.clone(), m, format!("fixed case #{}", lo + i)));
                         break;
                     }
                 }
@@ -577,6 +930,9 @@ pub fn run<P: Prop + 'static>(p: Arc<P>, cfg: Config) -> i32 {
                     }),
                     msg: format!("build profiles disagree on fixed/regression case #{} (digest {:?} vs {})", i, d.get(i), mine),
                     origin: "cross-profile".into(),
+                    tape: None,
+                    history: vec![],
+                    shard_prefix: None,
                 };
                 let path = save_replay(&*p, &cfg, &f);
                 violations.push((path, f.msg.clone()));
@@ -585,82 +941,39 @@ pub fn run<P: Prop + 'static>(p: Arc<P>, cfg: Config) -> i32 {
         }
     }
     let per_shard = (n_cases + threads - 1) / threads;
+    let mut interludes = 0u64;
+    let mut migrations = 0u64;
     if n_cases > 0 && violations.is_empty() {
         let mut handles = vec![];
         for t in 0..threads {
+            let env = ShardEnv {
+                seed: cfg.seed,
+                t,
+                tape_len,
+                upto: per_shard,
+                base: fixed_digest_count + t * per_shard,
+                dump: cfg.dump,
+                stop: stop.clone(),
+                hb: heartbeat.clone(),
+                cur: current.clone(),
+                crashlog: crashlog.clone(),
+                digest_in: digest_in.clone(),
+                t0,
+                replaying: false,
+            };
             let pp = p.clone();
-            let stop = stop.clone();
-            let hb = heartbeat.clone();
-            let cur = current.clone();
-            let seed = cfg.seed;
-            let digest_in = digest_in.clone();
-            let base = fixed_digest_count + t * per_shard;
-            let dump = cfg.dump;
-            let crashlog = crashlog.clone();
-            handles.push(run_on_big_stack(move || {
-                let mut agg = Agg::default();
-                let mut fail: Option<Failure<P::Case>> = None;
-                let rng = TestRng::from_seed(RngAlgorithm::ChaCha, &shard_seed(seed, t));
-                let mut runner = TestRunner::new_with_rng(PtConfig { failure_persistence: None, ..PtConfig::default() }, rng);
-                let strat = pvec(any::<u32>(), 0..=tape_len);
-                for i in 0..per_shard {
-                    if stop.load(Ordering::Relaxed) {
-                        break;
-                    }
-                    let mut tree = strat.new_tree(&mut runner).expect("tape tree");
-                    let tape_v = tree.current();
-                    // the watchdog must be able to name the very case that hangs (in the generator or in the check):
-                    // its tape is cheap to keep
-                    hb[t].store(t0.elapsed().as_millis() as u64 + 1, Ordering::Relaxed);
-                    *cur[t].lock().unwrap() = Some(json!({ "tape": tape_v }));
-                    if let Some(cl) = &*crashlog {
-                        cl.record(t, 1, &tape_v);
-                    }
-                    let mut tape = Tape::new(&tape_v);
-                    let case = pp.generate(&mut tape);
-                    let mut o = pp.check(&case);
-                    if t == 0 && i < dump {
-                        println!("--- case {}: {:?} labels={:?} nt={}\n{}", i, o.verdict, o.labels, o.nontrivial, serde_json::to_string_pretty(&pp.sample(&case)).unwrap());
-                    }
-                    if let Some(d) = &digest_in {
-                        if !o.is_fail() {
-                            let theirs = d.get(base + i).copied();
-                            if theirs != Some(o.digest) {
-                                o.verdict = Verdict::Fail(format!(
-                                    "build profiles disagree on this case: other profile digest {:?}, this profile {}",
-                                    theirs, o.digest
-                                ));
-                            }
-                        }
-                    }
-                    agg.add(pp.key(&case), &o);
-                    agg.generated += 1;
-                    if o.nontrivial && !matches!(o.verdict, Verdict::Discard(_)) && agg.samples.len() < 3 && (i % 7 == 3 || per_shard < 50) {
-                        agg.samples.push(pp.sample(&case));
-                    }
-                    if let Verdict::Fail(m) = o.verdict {
-                        stop.store(true, Ordering::Relaxed);
-                        let is_profile = m.starts_with("build profiles disagree");
-                        let (case, msg) = if is_profile { (case, m) } else { shrink(&*pp, &mut tree, (case, m), 4000) };
-                        fail = Some(Failure { case, msg, origin: format!("generated case shard {} #{}", t, i) });
-                        break;
-                    }
-                }
-                hb[t].store(0, Ordering::Relaxed);
-                if let Some(cl) = &*crashlog {
-                    cl.record(t, 0, &[]);
-                }
-                (agg, fail)
-            }));
+            handles.push(std::thread::spawn(move || run_shard(pp, env)));
         }
         let mut shard_aggs = vec![];
         for h in handles {
-            let (agg, fail) = h.join().expect("shard");
-            if let Some(f) = fail {
+            let st = h.join().expect("shard");
+            interludes += st.interludes;
+            migrations += st.migrations;
+            if let Some(f) = st.fail {
                 let path = save_replay(&*p, &cfg, &f);
                 violations.push((path, format!("{} [{}]", f.msg, f.origin)));
             }
-            shard_aggs.push(agg);
+            shard_aggs.push(st.agg);
         }
         // digests must be laid out shard by shard with fixed stride
         for mut agg in shard_aggs {
@@ -695,6 +1008,15 @@ pub fn run<P: Prop + 'static>(p: Arc<P>, cfg: Config) -> i32 {
     coverage.insert("label_gaps".into(), json!(gaps));
     coverage.insert("discards".into(), json!(total.discards));
     coverage.insert("known_findings_seen".into(), json!(known_seen));
+    coverage.insert(
+        "same_thread_history".into(),
+        json!({
+            "what": "the generated cases of a shard run one after another on one thread; before about every 12th case an interlude runs there too (runtime errors deep inside calls and loops, output and input streams failing at a byte offset, rejected texts, lint runs; results thrown away). A case that fails only after such a history is reported with the history in its replay. After anything unwinds through rrss (fuel hook) the shard continues on a fresh thread.",
+            "interludes_run": interludes,
+            "interlude_kinds": crate::poison::KINDS,
+            "moves_to_a_fresh_thread_after_an_unwind": migrations,
+        }),
+    );
     coverage.insert("profile".into(), json!(cfg.profile));
     for (k, v) in p.extra() {
         coverage.insert(k, v);
